@@ -411,6 +411,7 @@ impl Database {
             (ai, header.rightmost_hint())
         };
         let mut auto_increment_max = auto_increment_current;
+        let mut auto_increment_stored = auto_increment_current;
         let mut rightmost_hint = if hint > 0 { Some(hint) } else { None };
 
         let mut toast_rightmost_hints: SmallVec<[Option<u32>; 8]> = SmallVec::new();
@@ -573,6 +574,16 @@ impl Database {
                     if (*provided_val as u64) > auto_increment_current {
                         auto_increment_current = *provided_val as u64;
                     }
+                }
+
+                // Persist the counter before anything below can fail: the rows this statement
+                // has already stored stay when a later row is rejected, so a value handed out
+                // or observed here must never be generated again.
+                if auto_increment_max > auto_increment_stored {
+                    let mut storage = main_storage_arc.write();
+                    let page = storage.page_mut(0)?;
+                    TableFileHeader::from_bytes_mut(page)?.set_auto_increment(auto_increment_max);
+                    auto_increment_stored = auto_increment_max;
                 }
             }
 
@@ -1116,23 +1127,14 @@ impl Database {
             }
         }
 
-        let needs_header_update = (auto_increment_col_idx.is_some() && auto_increment_max > 0)
-            || rightmost_hint.is_some()
-            || count > 0
-            || root_page != initial_root_page;
+        let needs_header_update =
+            rightmost_hint.is_some() || count > 0 || root_page != initial_root_page;
 
         if needs_header_update {
             if let Some(storage_arc) = storage_map.get(&table_file_key) {
                 let mut storage = storage_arc.write();
                 let page = storage.page_mut(0)?;
                 let header = TableFileHeader::from_bytes_mut(page)?;
-
-                if auto_increment_col_idx.is_some()
-                    && auto_increment_max > 0
-                    && auto_increment_max > header.auto_increment()
-                {
-                    header.set_auto_increment(auto_increment_max);
-                }
 
                 if let Some(hint) = rightmost_hint {
                     header.set_rightmost_hint(hint);
